@@ -711,9 +711,9 @@ Ltac do_proj :=
   | let c := fresh "c" in let st := fresh "st" in let H := fresh "H" in
     intros [c st] H; cbn [snd] in H ].
 
-Ltac do_expr p :=
+Ltac do_expr p e :=
   eapply wp_bind;
-  [ eapply (expr_spec' p); [nl; reflexivity| |assumption|first [assumption|okt]|cbn; lia]
+  [ eapply (expr_spec' p _ e); [nl; reflexivity| |assumption|first [assumption|okt]|cbn; lia]
   | let n := fresh "n" in let st := fresh "st" in let H := fresh "H" in
     intros [n st] H; cbn [snd] in H ].
 
@@ -736,7 +736,7 @@ Proof.
   intros He Hs Hok. destruct He as [u e Hu He|t bs i e Ht Hbs Hi He|p k Hp Hk].
   - destruct u as [ty v]. cbn [ttyp] in Hu. cbn [app] in *.
     destruct ty; try discriminate Hu; unfold primary; sx.
-    all: match goal with |- wp _ (bind (expr rec ?p _) _) => do_expr p; [eassumption|] end.
+    all: match goal with |- wp _ (bind (expr rec ?p _) _) => do_expr p e; [eassumption|] end.
     all: resk0.
   - conc. nl. nl_in Hok. unfold primary. sx. apply let_spec; try assumption; [reflexivity|okt].
   - destruct Hp as [t Ht|o e c Ho He Hc|m Hm|m Hm|fn Hfn|b Hb].
@@ -755,7 +755,7 @@ Proof.
       conc. nl. nl_in Hok. unfold primary, unexpected_curr. sx. do_expr1. sx. resk0.
     + (* multi-select list *)
       destruct Hm as [o es c Ho Hes Hc]. conc. nl. nl_in Hok. unfold primary, select_array. sx.
-      rewrite (gEs_notidx _ _ Hes).
+      rewrite !ct_sto, (gEs_notidx _ _ Hes).
       eapply wp_mono; [apply select_array_loop_spec; [assumption|reflexivity|okt]|].
       intros [n st] [E Hok']. cbn [snd] in *. subst st. resk0.
     + (* multi-select hash *)
@@ -771,8 +771,144 @@ Proof.
         unfold primary; sx.
       * do_index. apply wsp_spec; [assumption|assumption|okt].
       * do_proj. resk0.
-      * rewrite (gSlice_hd _ _ Hs'). do_index. apply wsp_spec; [assumption|assumption|okt].
+      * rewrite !ct_sto, (gSlice_hd _ _ Hs'). do_index. apply wsp_spec; [assumption|assumption|okt].
       * do_proj. resk0.
       * eapply wp_bind; [apply filter_spec; [assumption|reflexivity|okt]|].
         intros [fl st] [E Hok']. cbn [snd] in E. subst st. do_proj. resk0.
 Qed.
+
+Lemma gCall_shape c : gCall c -> exists v r, c = Tok TUnquotedIdentifier v :: r.
+Proof. destruct 1 as [fn o args c Hf Ho Hargs Hc]. conc. eauto. Qed.
+
+Lemma binary_prec k : binary_t k = true -> 2 <= precedence k <= 7.
+Proof. destruct k; try discriminate; cbn; lia. Qed.
+
+Definition CSR (rest : list token) (r : option (node * pst)) : Prop :=
+  exists n st, r = Some (n, st) /\ RESK0 rest st.
+
+Ltac csr := cbn [wp]; eexists _, _; split; [reflexivity|]; resk0.
+
+(* one iteration of parser.continuation on a non-empty continuation *)
+Lemma cont_step_spec o k rest : KX k -> k <> [] -> stop rest -> okl (k ++ rest) ->
+  (o = None -> binary_t (hdt k) = false) ->
+  wp (CSR rest) (cont_step rec f o (precedence (hdt k)) (sto (k ++ rest))).
+Proof.
+  intros Hk Hne Hs Hok Ho. destruct Hk as [|op e Hop He|s k Hs' Hk|b k Hb Hk]; [congruence|..].
+  - (* binary operator *)
+    destruct o as [l|]; [|specialize (Ho eq_refl); rewrite hdt_cons in Ho; congruence].
+    destruct op as [ty v]. cbn [ttyp] in Hop. cbn [app] in *. rewrite hdt_cons. cbn [ttyp].
+    destruct ty; try discriminate Hop; unfold cont_step; sx; cbn [bin_of].
+    all: match goal with |- wp _ (bind (expr rec ?p _) _) => do_expr p e; [eassumption|] end.
+    all: csr.
+  - (* sub-expression *)
+    destruct Hs' as [d t Hd Ht|d m Hd Hm|d t Hd Ht|d m Hd Hm|d c Hd Hc|t Ht].
+    + conc. apply ident_cases in Ht. cbn [app] in *. rewrite hdt_cons. cbn [ttyp].
+      destruct Ht as [[v ->]|[v ->]]; unfold cont_step; sx; cbn [bin_of].
+      * do_expr (precedence TDot) (Tok TUnquotedIdentifier v :: k);
+          [apply (LX_pr [Tok TUnquotedIdentifier v] k); [apply gP_atom; reflexivity|assumption]|].
+        destruct o; csr.
+      * do_expr (precedence TDot) (Tok TQuotedIdentifier v :: k);
+          [apply (LX_pr [Tok TQuotedIdentifier v] k); [apply gP_atom; reflexivity|assumption]|].
+        destruct o; csr.
+    + destruct Hm as [o' es c Ho' Hes Hc]. conc. nl. nl_in Hok. rewrite hdt_cons. cbn [ttyp].
+      unfold cont_step, select_array. sx. cbn [bin_of].
+      eapply wp_bind; [apply select_array_loop_spec; [assumption|reflexivity|okt]|].
+      intros [n st] [E Hok']. cbn [snd] in E. subst st. csr.
+    + conc. cbn [app] in *. rewrite hdt_cons. cbn [ttyp]. unfold cont_step. sx. cbn [bin_of]. csr.
+    + destruct Hm as [o' kvs c Ho' Hkvs Hc]. conc. nl. nl_in Hok. rewrite hdt_cons. cbn [ttyp].
+      unfold cont_step, select_object. sx. cbn [bin_of].
+      eapply wp_bind; [apply select_object_loop_spec; [assumption|reflexivity|okt]|].
+      intros [n st] [E Hok']. cbn [snd] in E. subst st. csr.
+    + conc. destruct (gCall_shape _ Hc) as (v & r & ->). nl. nl_in Hok. rewrite hdt_cons. cbn [ttyp].
+      unfold cont_step. sx. cbn [bin_of].
+      do_expr (precedence TDot) ((Tok TUnquotedIdentifier v :: r) ++ k);
+        [apply LX_pr; [apply gP_call; assumption|assumption]|].
+      destruct o; csr.
+    + conc. cbn [app] in *. rewrite hdt_cons. cbn [ttyp]. unfold cont_step. sx. cbn [bin_of].
+      do_proj. csr.
+  - (* bracket-specifier *)
+    destruct Hb as [o' n c Ho' Hn Hc|t Ht|o' s c Ho' Hs' Hc|t Ht|o' e c Ho' He Hc]; conc; nl; nl_in Hok;
+      rewrite hdt_cons; cbn [ttyp]; unfold cont_step; sx; cbn [bin_of].
+    + do_index. do_wsp. csr.
+    + do_proj. csr.
+    + do_index. do_wsp. csr.
+    + do_proj. csr.
+    + eapply wp_bind; [apply filter_spec; [assumption|reflexivity|okt]|].
+      intros [fl st] [E Hok']. cbn [snd] in E. subst st. do_proj. csr.
+Qed.
+
+Definition POSTE (p : Z) (rest : list token) (r : option node * pst) : Prop :=
+  (exists n, fst r = Some n) /\ RESK p rest (snd r).
+Definition POSTK (o : option node) (p : Z) (rest : list token) (r : option node * pst) : Prop :=
+  (o <> None -> fst r <> None) /\ RESK p rest (snd r).
+
+Lemma run_body_expr p e rest : LX e -> stop rest -> okl (e ++ rest) -> 0 <= p ->
+  wp (POSTE p rest) (run_body rec f (CExpr p) (sto (e ++ rest))).
+Proof.
+  intros He Hs Hok Hp. cbn [run_body].
+  eapply wp_bind; [apply primary_spec; assumption|].
+  intros [n st] (k & E & Hk & Hok'). cbn [snd] in E. subst st.
+  eapply wp_mono; [apply (HK (Some n) p k rest); try assumption; congruence|].
+  intros [o' st'] [H1 H2]. cbn [fst snd] in *. split; [|assumption].
+  destruct o' as [n'|]; [cbn [fst]; eauto|]. cbn [fst] in H1. exfalso. apply H1; [discriminate|reflexivity].
+Qed.
+
+Lemma run_body_cont o p k rest : KX k -> stop rest -> okl (k ++ rest) -> 0 <= p -> (o = None -> 7 <= p) ->
+  wp (POSTK o p rest) (run_body rec f (CCont o p) (sto (k ++ rest))).
+Proof.
+  intros Hk Hs Hok Hp Ho. cbn [run_body]. cbv zeta. rewrite ct_sto.
+  destruct (precedence (hdt (k ++ rest)) >? p) eqn:Ep.
+  - apply Z.gtb_lt in Ep.
+    destruct (follow_cases k rest Hk Hs) as [[-> Hc]|[Hne Hh]].
+    { apply closer_prec in Hc. lia. }
+    rewrite hdt_app_ne in * by assumption.
+    eapply wp_bind; [apply cont_step_spec; try assumption|].
+    { intros ->. specialize (Ho eq_refl). destruct (binary_t (hdt k)) eqn:Eb; [|reflexivity].
+      apply binary_prec in Eb. lia. }
+    intros r (n & st & -> & k1 & -> & Hk1 & Hok1).
+    eapply wp_mono; [apply (HK (Some n) p k1 rest); try assumption; congruence|].
+    intros [o' st'] [H1 H2]. cbn [fst snd] in *. split; [|assumption].
+    intros _. apply H1. congruence.
+  - cbn [wp]. split; [cbn [fst]; auto|]. cbn [snd]. exists k. repeat split; try assumption.
+    destruct k as [|t k']; [exact I|]. cbn [app] in Ep. rewrite hdt_cons in Ep. cbn [lowhead].
+    rewrite Z.gtb_ltb in Ep. apply Z.ltb_ge in Ep. exact Ep.
+Qed.
+
+Lemma run_body_amp p v l : A (Tok TExpression v) ->
+  wp (fun _ : option node * pst => False) (run_body rec f (CExpr p) (sto (Tok TExpression v :: l))).
+Proof.
+  intros Ha. cbn [run_body]. unfold primary, unexpected_curr. sx. cbn [wp gerr].
+  exists (Tok TExpression v). auto.
+Qed.
+End Level.
+
+(* ---- the invariant holds at every fuel ---- *)
+Definition SPEC (rec : pcall -> pst -> outcome (option node * pst)) : Prop :=
+  (forall p e rest, LX e -> stop rest -> okl (e ++ rest) -> 0 <= p ->
+     wp (POSTE p rest) (rec (CExpr p) (sto (e ++ rest)))) /\
+  (forall o p k rest, KX k -> stop rest -> okl (k ++ rest) -> 0 <= p -> (o = None -> 7 <= p) ->
+     wp (POSTK o p rest) (rec (CCont o p) (sto (k ++ rest)))) /\
+  (forall p v l, A (Tok TExpression v) ->
+     wp (fun _ : option node * pst => False) (rec (CExpr p) (sto (Tok TExpression v :: l)))).
+
+Lemma run_spec : forall fuel, SPEC (run fuel).
+Proof.
+  induction fuel as [|fuel (IH1 & IH2 & IH3)].
+  - repeat split; intros; exact I.
+  - repeat split; intros; cbn [run].
+    + apply run_body_expr; assumption.
+    + apply run_body_cont; assumption.
+    + apply run_body_amp; assumption.
+Qed.
+
+Lemma parse_items_wp fuel ts : gE ts -> okl ts ->
+  wp (fun _ => True) (parse_items fuel (map ITok ts ++ [ITok tEnd])).
+Proof.
+  intros Hg Hok. rewrite parse_items_sto.
+  destruct (run_spec fuel) as (H1 & _ & _).
+  eapply wp_bind.
+  - rewrite <- (app_nil_r ts). apply H1; [apply gE_LX; assumption|reflexivity|rewrite app_nil_r; assumption|lia].
+  - intros [o st] [[n Hn] (k & E & Hk & Hok' & Hl)]. cbn [fst snd] in *. subst o st.
+    apply KX_low1 in Hl; [|assumption]. subst k. cbn [app]. exact I.
+Qed.
+End Main.
